@@ -11,7 +11,7 @@ import NeumannModel.Snap.Model
     tensor_store/src/cache_ring.rs    (fixed slots; snapshot = the occupied slots in slot order,
                                        restore = a new ring + `put` of every entry)
     tensor_store/src/graph_tensor.rs  (CSR + pending log + deleted set + incoming index + edge data;
-                                       snapshot merges first, restore re-adds every edge)
+                                       snapshot merges first, restore re-inserts every edge under its id)
     tensor_store/src/blob_log.rs      (segments + index + garbage marks; snapshot leaves the marks out)
     tensor_store/src/lib.rs           (restore_from_bytes: clear + re-put of every scanned key;
                                        save/load_snapshot_compressed: scan + get, fresh store + put)
@@ -274,15 +274,7 @@ structure GEdge where
   directed : Bool
   deriving DecidableEq, Repr
 
-/-- the two repairs proposed for the graph tensor (`/verif/proposed/C07-graph-*.diff`); both `false`
-    is the code as it is -/
-structure GFix where
-  keepIds : Bool          -- `restore` re-adds every edge under its saved id
-  pruneIncoming : Bool    -- `merge` removes the merged-away deleted edges from the incoming index
-  deriving DecidableEq, Repr
-
 structure GraphT where
-  fx : GFix
   csr : List GEdge          -- the CSR rows one after the other: row `n` = the edges with `src = n`
   csrNodes : Nat            -- `row_ptr.len() - 1`
   pending : List GEdge
@@ -295,8 +287,8 @@ structure GraphT where
   edgeData : List (Nat × TData)    -- the `edge_data` slab, keyed `edge:{id}`
   deriving DecidableEq, Repr
 
-def GraphT.new (fx : GFix) (threshold : Nat) : GraphT :=
-  ⟨fx, [], 0, [], [], [], ["default".toList], 0, 0, threshold, []⟩
+def GraphT.new (threshold : Nat) : GraphT :=
+  ⟨[], 0, [], [], [], ["default".toList], 0, 0, threshold, []⟩
 
 /-- `CsrGraph::build`: empty input gives the empty graph; otherwise one row per node `0 ..= max_node_id`
     holding, in input order, the edges that start there (edges starting beyond are dropped) -/
@@ -311,17 +303,24 @@ def csrOutgoing (csr : List GEdge) (csrNodes node : Nat) : List GEdge :=
 def GraphT.notDeleted (g : GraphT) (e : GEdge) : Bool := !g.deleted.contains e.id
 
 /-- `merge`: rebuild the CSR from its surviving edges followed by the surviving pending edges; the
-    pending log and the deleted set are emptied. The incoming index is NOT touched by the code
-    (`fx.pruneIncoming = false`). -/
+    pending log and the deleted set are emptied, and (since ce34e58a) the deleted edges leave the
+    incoming index too -/
 def GraphT.merge (g : GraphT) : GraphT :=
   if g.pending.isEmpty && g.deleted.isEmpty then g
   else
     let all := g.csr.filter g.notDeleted ++ g.pending.filter g.notDeleted
     let b := csrBuild all g.maxNode
     { g with csr := b.1, csrNodes := b.2, pending := [], deleted := [],
-             incoming := if g.fx.pruneIncoming then
-                 g.incoming.map (fun p => (p.1, p.2.filter (fun x => !g.deleted.contains x.2)))
-               else g.incoming }
+             incoming := g.incoming.map (fun p => (p.1, p.2.filter (fun x => !g.deleted.contains x.2))) }
+
+/-- `merge` before ce34e58a: the incoming index was left alone, so the edges of the emptied deleted
+    set were listed by `incoming` again -/
+def GraphT.mergeOld (g : GraphT) : GraphT :=
+  if g.pending.isEmpty && g.deleted.isEmpty then g
+  else
+    let all := g.csr.filter g.notDeleted ++ g.pending.filter g.notDeleted
+    let b := csrBuild all g.maxNode
+    { g with csr := b.1, csrNodes := b.2, pending := [], deleted := [] }
 
 /-- `intern_edge_type` -/
 def GraphT.intern (g : GraphT) (ty : Name) : GraphT × Nat :=
@@ -329,8 +328,8 @@ def GraphT.intern (g : GraphT) (ty : Name) : GraphT × Nat :=
   | some i => (g, i)
   | none => ({ g with types := g.types ++ [ty] }, g.types.length)
 
-/-- `add_edge` (`forced = none`), or the same under a given id without touching the id counter (what
-    `restore` does with `fx.keepIds`) -/
+/-- `add_edge` (`forced = none`: a fresh id from the counter) and `insert_edge` under a given id
+    (`forced = some id`, what `restore` uses since 3d29d770; the counter is not touched) -/
 def GraphT.addEdgeWith (g : GraphT) (forced : Option Nat) (src dst : Nat) (ty : Name) (directed : Bool) : GraphT × Nat :=
   let id := match forced with
     | some i => i
@@ -387,15 +386,23 @@ def GraphT.snapshot (g : GraphT) : GraphT × GraphSnap :=
   let g' := g.merge
   (g', ⟨g'.csr, g'.types, g'.nextId, g'.maxNode, g'.edgeData⟩)
 
-/-- `GraphTensor::restore`: a new graph (default merge threshold 10 000), the saved type registry,
-    `add_edge` of every saved edge — which numbers the edges 0, 1, 2 … in snapshot order instead of
-    using `edge.edge_id` (`fx.keepIds = false`) — then the saved counters and the edge data -/
-def GraphT.restore (fx : GFix) (s : GraphSnap) : GraphT :=
-  let g0 : GraphT := { GraphT.new fx 10000 with types := s.types }
+/-- `GraphTensor::restore`: a new graph (default merge threshold 10 000) with the saved type registry
+    (`restoreStart`), every
+    saved edge inserted under its saved id (`keep = true`: the code since 3d29d770) or re-added with
+    `add_edge`, which numbers them 0, 1, 2 … in snapshot order (`keep = false`: the code before), then
+    the saved counters and the edge data -/
+def GraphT.restoreStart (types : List Name) : GraphT := { GraphT.new 10000 with types := types }
+
+def GraphT.restoreWith (keep : Bool) (s : GraphSnap) : GraphT :=
   let g1 := s.edges.foldl (fun g e =>
-    (g.addEdgeWith (if fx.keepIds then some e.id else none) e.src e.dst (s.types.getD e.ty []) e.directed).1) g0
+    (g.addEdgeWith (if keep then some e.id else none) e.src e.dst (s.types.getD e.ty []) e.directed).1) (GraphT.restoreStart s.types)
   { g1 with nextId := s.nextId, maxNode := s.maxNode,
             edgeData := s.edgeData.foldl (fun m p => aInsert p.1 p.2 m) g1.edgeData }
+
+def GraphT.restore (s : GraphSnap) : GraphT := GraphT.restoreWith true s
+
+/-- `restore` before 3d29d770 -/
+def GraphT.restoreOld (s : GraphSnap) : GraphT := GraphT.restoreWith false s
 
 /-! ## blob log (blob_log.rs); chunk hashes are inputs -/
 
@@ -492,11 +499,10 @@ structure RouterCfg where
   cacheCap : Nat
   threshold : Nat
   segSize : Nat
-  fx : GFix
   deriving DecidableEq, Repr
 
 def Router.new (cfg : RouterCfg) : Router :=
-  ⟨EIndex.new, ESlab.new cfg.dim, [], Cache.new cfg.cacheCap, GraphT.new cfg.fx cfg.threshold, BlobLog.new cfg.segSize⟩
+  ⟨EIndex.new, ESlab.new cfg.dim, [], Cache.new cfg.cacheCap, GraphT.new cfg.threshold, BlobLog.new cfg.segSize⟩
 
 /-- bit pattern of `1.0_f64`, the cost every routed cache entry gets -/
 def COST_ONE : Nat := 4607182418800017408
@@ -583,9 +589,9 @@ def Router.snapshot (ttOk : List Nat → Bool) (r : Router) : Router × RouterSn
 def restoreMeta (es : List (Name × TData)) : List (Name × TData) := es.foldl (fun m p => aInsert p.1 p.2 m) []
 
 /-- `SlabRouter::restore` -/
-def Router.restore (ttRecon : List Nat → List Nat) (fx : GFix) (s : RouterSnap) : Router :=
+def Router.restore (ttRecon : List Nat → List Nat) (s : RouterSnap) : Router :=
   ⟨EIndex.restore s.index, ESlab.restore ttRecon s.emb, restoreMeta s.md, Cache.restore s.cache,
-   GraphT.restore fx s.graph, BlobLog.restore s.blobs⟩
+   GraphT.restore s.graph, BlobLog.restore s.blobs⟩
 
 /-- the header's `entry_count`: `router.len() + router.index.len()` -/
 def Router.entryCount (r : Router) : Nat := r.len + r.index.live
@@ -604,6 +610,8 @@ def GraphT.apply (g : GraphT) : GOp → GraphT
   | .merge => g.merge
   | .setData id d => g.setEdgeData id d
 
+def GraphT.run (g : GraphT) (ops : List GOp) : GraphT := ops.foldl GraphT.apply g
+
 inductive BOp where
   | append (hash : Nat) (data : Bytes)
   | mark (hash : Nat)
@@ -614,6 +622,8 @@ def BlobLog.apply (b : BlobLog) : BOp → BlobLog
 
 /-- `evict_cache`: the entries with the lowest scores go; which ones is an input -/
 def Cache.evict (c : Cache) (keys : List Name) : Cache := keys.foldl (fun c k => c.delete k) c
+
+def BlobLog.run (b : BlobLog) (ops : List BOp) : BlobLog := ops.foldl BlobLog.apply b
 
 inductive ROp where
   | put (key : Name) (val : TData) (victim : Nat)
